@@ -20,6 +20,7 @@ def structure2(e):
     if isinstance(e, int): return ['py', e]
     if isinstance(e, sym.IntLiteral): return ['int', int(e.value)]
     if isinstance(e, sym.LogicLiteral): return ['log', bool(e.value)]
+    if isinstance(e, sym.FloatLiteral): return ['float', str(e.value)]
     if isinstance(e, pmbl.Sum):
         if not isinstance(e, sym.Sum): return ['psum'] + [structure2(c) for c in e.children]
         return ['sum', isinstance(e, op.ParenthesisedAdd)] + [structure2(c) for c in e.children]
@@ -69,6 +70,15 @@ def plain_to_ordinary(s):
     if s[0] == 'psum': return ['sum', False] + [plain_to_ordinary(c) for c in s[1:]]
     if s[0] == 'pprod': return ['prod', False] + [plain_to_ordinary(c) for c in s[1:]]
     return [plain_to_ordinary(c) for c in s]
+
+def foreign_nodes(s):
+    """nodes in an implementation result that the integer/logical model type cannot hold (FloatLiteral, unknown classes)"""
+    if not isinstance(s, list) or not s: return []
+    if s[0] in ('float', '?'): return [s]
+    out = []
+    for c in s[1:]:
+        if isinstance(c, list): out += foreign_nodes(c)
+    return out
 
 def flags_coq(bits):
     return C('Build_flags', *[bool(b) for b in bits])
@@ -123,7 +133,44 @@ def gen_linear(rng, vars_=('a', 'b', 'n')):
         return s
     return go(2)
 
+def gen_powers(rng):
+    """powers with literal bases and constant-expression / negative-literal exponents (literal ** literal folding of map_power),
+    alone and embedded in sums/products"""
+    def lit(v): return ['int', v]
+    base = rng.choice([lit(2), lit(2), lit(3), lit(10), lit(-2), lit(-3), lit(5), lit(1), lit(-1), lit(0), ['var', rng.choice(['a', 'k'])]])
+    p, q = rng.randint(0, 4), rng.randint(1, 5)
+    exps = [
+        lit(-q), lit(q), lit(0),
+        ['sum', False, lit(p), ['prod', False, ['py', -1], lit(q)]],              # p - q
+        ['sum', False, lit(p), lit(-q)],                                          # p + (-q) with a negative literal
+        ['sum', rng.random() < 0.3, lit(p), ['prod', False, ['py', -1], lit(q)], ['prod', False, ['py', -1], lit(rng.randint(1, 3))]],
+        ['prod', False, ['py', -1], lit(q)],                                      # unary minus: minus-prefix product
+        ['prod', False, lit(-1), lit(q)],
+        ['sum', False, lit(1), ['prod', False, lit(-1), lit(q)]],
+        ['quot', False, lit(-2 * q), lit(2)],
+    ]
+    pw = ['pow', rng.random() < 0.1, base, rng.choice(exps)]
+    r = rng.random()
+    if r < 0.45: return pw
+    if r < 0.65: return ['sum', False, ['prod', False, lit(rng.choice([7, 3, -2])), pw], ['var', 'k']]
+    if r < 0.80: return ['sum', False, ['var', 'a'], ['prod', False, pw, ['var', 'b']]]
+    if r < 0.90: return ['cmp', rng.choice(list(CMP)), pw, lit(rng.choice([0, 1]))]
+    return ['prod', False, ['py', -1], pw]
+
+def power_flags(rng):
+    """all 32 subsets, the eight with IntegerArithmetic and without CollectCoefficients over-represented"""
+    if rng.random() < 0.5:
+        return [rng.random() < 0.5, True, rng.random() < 0.5, False, rng.random() < 0.5]
+    return [rng.random() < 0.5 for _ in range(5)]
+
 FIXED = [
+    # literal ** (constant sum that is negative): sum_literals leaves a negative IntLiteral exponent, which must NOT be folded
+    (['pow', False, ['int', 2], ['sum', False, ['int', 1], ['prod', False, ['py', -1], ['int', 3]]]], [0, 1, 0, 0, 0]),
+    (['pow', False, ['int', 2], ['sum', False, ['int', 1], ['prod', False, ['py', -1], ['int', 3]]]], [1, 1, 1, 0, 1]),
+    (['pow', False, ['int', 2], ['int', -2]], [0, 1, 0, 0, 0]),
+    (['pow', False, ['int', -3], ['int', -1]], [1, 1, 0, 0, 0]),
+    (['sum', False, ['prod', False, ['int', 7], ['pow', False, ['int', 2], ['sum', False, ['int', 2], ['int', -3]]]], ['var', 'k']], [0, 1, 0, 0, 0]),
+    (['sum', False, ['var', 'a'], ['prod', False, ['pow', False, ['int', 10], ['sum', False, ['int', 1], ['prod', False, ['py', -1], ['int', 2]]]], ['var', 'b']]], [0, 1, 1, 0, 0]),
     # shapes used by Loki itself: ceil_division, iteration_number, iteration_index
     (['sum', False, ['quot', False, ['sum', False, ['var', 'a'], ['int', -1]], ['var', 'b']], ['int', 1]], [0, 1, 0, 0, 0]),
     (['sum', False, ['quot', False, ['sum', False, ['var', 'k'], ['prod', False, ['py', -1], ['var', 'a']]], ['var', 'b']], ['int', 1]], [0, 1, 0, 0, 0]),
@@ -155,7 +202,7 @@ class C08(Property):
     shard = 300
     rule = ('(tree, flag subset) pairs: random integer trees (shared gen_arith, a quotient/unary-minus heavy generator, linear loop-bound '
             'shapes) and logical trees (gen_logic), depth <= 3 (quick) / 4 (thorough), flag subsets drawn uniformly with ALL over-represented, '
-            'plus fixed shapes used by Loki itself.  Every candidate is classified BY THE COQ MODEL (vm_compute of in_class / outcome kind) '
+            'powers with literal bases and constant-sum / negative-literal / unary-minus exponents under all flag subsets (IntegerArithmetic without CollectCoefficients over-represented), plus fixed shapes used by Loki itself.  Every candidate is classified BY THE COQ MODEL (vm_compute of in_class / outcome kind) '
             'before it becomes a case: cls=in (the run takes no unsafe step: oracle demands equal values on 10 valuations with non-zero divisors), '
             'cls=out (outside the class of the theorem: correspondence only), cls=err (model predicts the ZeroDivisionError of a literal 0/0).  '
             'Correspondence = exact output tree incl. plain pymbolic nodes, exception class, str(expr).  A case is non-trivial when the '
@@ -170,10 +217,12 @@ class C08(Property):
 
     # ---- generation ---------------------------------------------------------------------------
     def _candidates(self, rng, tier):
-        n = 500 if tier == 'quick' else 3000
+        n = 450 if tier == 'quick' else 3000
         maxd = 3 if tier == 'quick' else 4
         for s, bits in FIXED:
             yield 'fixed', s, [bool(b) for b in bits]
+        for _ in range(90 if tier == 'quick' else 600):
+            yield 'power', gen_powers(rng), power_flags(rng)
         for i in range(n):
             r = rng.random()
             d = rng.choice([1, 2, 2, 3, maxd])
@@ -237,6 +286,8 @@ class C08(Property):
             raise ValueError('unexpected exception %s' % out['__exception__'])
         e = model_of_structure(case['tree'])
         r = out['res']
+        if r[0] == 'ok' and foreign_nodes(r[1]):
+            return 'false'      # the model never produces such a node: a disagreement (the oracle names the input)
         if r[0] == 'ok': o = C('OOk', sx_of_structure(r[1]))
         elif r[0] == 'err': o = C('OErr', Raw({'ZeroDivisionError': 'EZeroDiv'}[r[1]]))
         else: o = Raw('OFuel')
@@ -260,6 +311,15 @@ class C08(Property):
             if cls == 'err' and r[0] == 'err':
                 return None     # ZeroDivisionError of a literal 0/0 predicted by the model: a zero divisor, outside the quantifier
             return 'simplify(%s) raised %s' % (what, r[1] if r[0] == 'err' else 'RecursionError')
+        fn = foreign_nodes(r[1])
+        if fn:
+            # the input is an integer/logical tree: a FloatLiteral (or an unknown node) in the result changes type and value
+            for env in case['envs']:
+                vi = eval_structure(case['tree'], env)
+                if vi is not None:
+                    return 'simplify(%s) contains %s although the input is an integer expression with value %s at %s' % (
+                        what, fn[0], vi, {k: v for k, v in env.items()})
+            return 'simplify(%s) contains %s although the input is an integer expression' % (what, fn[0])
         if cls in ('out', 'err'):
             return None
         res = plain_to_ordinary(r[1])
